@@ -64,7 +64,22 @@ def correspond(model_ok, res):
          [parser.parse("a:y"), parser.parse("a.b:y"), parser.parse("a.b.c:y")], "F8"),
         ({}, [parser.parse("a:[-1 TO 5]"), parser.parse("[-1 TO 5] AND b OR c"),
               parser.parse('a:[1 TO -"x y"]')], "F7-regression"),
-    ] + E.builder_sessions(r, T, n)
+    ]
+    # every kind of value attached DIRECTLY to a declared object / nested container (the lone wildcard, patterns,
+    # phrases, ranges with open bounds, modifiers), in every spelling, negated and boosted
+    values = ["*", "?", "par*", '"paris"', "[* TO *]", "[1 TO *]", "x~1", '"a b"~2', "x^2", "/re/", ">=1", "(* OR x)"]
+    conts = [("a", "a"), ("a.b", "a:(b"), ("n.o", "n:(o")]
+    cq = []
+    for v in values:
+        for dotted, grouped in conts:
+            close = ")" * grouped.count("(")
+            cq += ["%s:%s" % (dotted, v), "%s:%s%s" % (grouped, v, close), "NOT %s:%s" % (dotted, v),
+                   "x AND (%s:%s)^2" % (dotted, v)]
+    for cfg in ({"object_fields": ["a.b.c", "n.o.h"], "sub_fields": []},
+                {"nested_fields": {"a": {"b": ["c"]}}, "object_fields": ["n.o.h"]},
+                {"nested_fields": {"n": {"o": {"h": None}}}, "object_fields": {"a": {"b": {"c": None}}}, "sub_fields": ["a.b.c.raw"]}):
+        sessions.append((cfg, [parser.parse(q) for q in cq], "containers-x-values"))
+    sessions += E.builder_sessions(r, T, n)
     stats = {"oracle_cases": 0, "predicted": {"field": 0, "mix": 0, "ok": 0}, "F8": 0}
 
     def oracle(cfg, tree, outcome, info):
